@@ -4,6 +4,7 @@ package harness
 
 import (
 	"fmt"
+	"github.com/ipfs/go-unixfsnode"
 	"github.com/spaolacci/murmur3"
 	"sort"
 	"strings"
@@ -682,4 +683,50 @@ func TestC02_P_RepointedLinkSystem(t *testing.T) {
 		ev.Case(fmt.Sprintf("%s f=%d n=%s", how, fanout, bucket(len(es))), true, "builder:"+how, "entries:"+bucket(len(es)))
 		ev.Sample(map[string]any{"builder": how, "fanout": fanout, "entries": len(es)})
 	})
+}
+
+// A sharded directory all of whose entries sit in the root block needs no further block: it is that map also when it is
+// reified through a link system that has no read storage (the write-only link system it was just built with, or a bare
+// default one).
+func TestC02_R_SingleBlockShardedDirWithoutReadStorage(t *testing.T) {
+	for _, fanout := range []int{256, 1024} {
+		for n := 1; n <= 12; n += 3 {
+			var es []entrySpec
+			want := map[string]cid.Cid{}
+			for i := 0; i < n; i++ {
+				e := entryFor(fmt.Sprintf("only-%d-%d", n, i), 1)
+				es = append(es, e)
+				want[e.Name] = e.Cid
+			}
+			st := NewStore()
+			root, _, err := buildSharded(st, es, fanout)
+			if err != nil {
+				t.Fatal(err)
+			}
+			if tr, err := st.ShardTree(root); err != nil || tr.Depth() != 1 {
+				continue // (two names share a bucket: not a single-block directory)
+			}
+			pn, err := loadPlain(st.LinkSystem(), root)
+			if err != nil {
+				t.Fatal(err)
+			}
+			for _, which := range []string{"write-only", "no storage", "bare default link system"} {
+				ls := *st.LinkSystem()
+				ls.StorageReadOpener = nil
+				if which != "write-only" {
+					ls.StorageWriteOpener = nil
+				}
+				if which == "bare default link system" {
+					ls = cidlink.DefaultLinkSystem()
+				}
+				dir, err := unixfsnode.Reify(lcS, pn, &ls)
+				if err != nil {
+					t.Fatalf("C02: single-block sharded directory (fanout %d, %d entries) reified through a link system with %s: %v", fanout, n, which, err)
+				}
+				if err := checkDirIsMapOpt(dir, want, []string{"nope", ""}, true); err != nil {
+					t.Fatalf("C02: single-block sharded directory (fanout %d, %d entries) through a link system with %s: %v", fanout, n, which, err)
+				}
+			}
+		}
+	}
 }
